@@ -1,7 +1,7 @@
 (* C03 — Predicted pictures equal motion-compensated reference plus residual.
    Proved so far; the composition over whole pictures is tied by execution against the reference
    reconstruction (see DESIGN.md). *)
-From H263V Require Import base.Prelude model.Types model.Reader model.Header model.Syntax model.Recon model.Decoder proofs.MvSpec.
+From H263V Require Import base.Prelude spec.SpecRecon model.Types model.Reader model.Header model.Syntax model.Recon model.Decoder proofs.MvSpec.
 
 (* each vector component = predictor + differential reduced modulo 64 half samples into -32..31 (= -16..15.5) *)
 Theorem C03_vector_wrap : forall cur running p d is_x,
